@@ -8,6 +8,7 @@ import (
 	"math"
 	"math/big"
 	"strconv"
+	"unicode/utf8"
 
 	"github.com/ohler55/slip"
 	"golang.org/x/text/cases"
@@ -156,8 +157,14 @@ func (c *control) readDir() {
 			}
 			params = append(params, p)
 		case '\'':
-			p := c.readParam()
-			params = append(params, slip.ReadCharacter(p))
+			// The character after the quote whatever it is, a directive
+			// character or a comma included.
+			if c.end <= c.pos {
+				c.invalidDir(c.str, c.pos)
+			}
+			r, size := utf8.DecodeRune(c.str[c.pos:c.end])
+			c.pos += size
+			params = append(params, slip.Character(r))
 		case '-', '0', '1', '2', '3', '4', '5', '6', '7', '8', '9':
 			c.pos--
 			p := c.readParam()
@@ -669,12 +676,9 @@ func (c *control) scanJustify(buf []byte, pos int) ([]*control, *control, int) {
 			case '-', '0', '1', '2', '3', '4', '5', '6', '7', '8', '9', ',':
 				// remain in tilde
 			case '\'':
-				// Read character and stay in tilde.
-				for ; pos < end; pos++ {
-					if dirScanMap[buf[pos]] == 'x' {
-						break
-					}
-				}
+				// Skip the character and stay in tilde.
+				_, size := utf8.DecodeRune(buf[pos:])
+				pos += size
 			default:
 				tilde = false
 			}
